@@ -538,6 +538,25 @@ impl C03 {
         add("file-tundra-position-row", "file:tnd", "", tnd(None, Some(0)));
         add("file-tundra-position-column", "file:tnd", "", tnd(Some(0), None));
         add("file-tundra-position-both", "file:tnd", "", tnd(None, None));
+        // --- a short .ans *file* whose first command makes the file buffer as tall as a picture can be (a file buffer grows
+        // with its content, up to 65535 rows), followed by one function that works on "the screen" - which in a file is the
+        // whole picture: scrolls, line and character insertion, erasures, rectangles, repeat. Each input is shorter than 64
+        // bytes; the count is the numeric slot
+        for (name, cmd) in [
+            ("S", &b"S"[..]), ("T", b"T"), ("SP@", b" @"), ("SPA", b" A"), ("L", b"L"), ("M", b"M"), ("@", b"@"), ("P", b"P"), ("X", b"X"), ("b", b"b"), ("J", b"J"), ("K", b"K"),
+            ("E", b"E"), ("F", b"F"), ("d", b"d"), ("e", b"e"),
+        ] {
+            for (pos, home) in [("at the bottom", &b""[..]), ("at the top", b"\x1b[H")] {
+                let mut parts = vec![lit(b"\x1b[65535;1Hx"), lit(home), lit(b"\x1b[")];
+                parts.push(Part::B);
+                parts.push(lit(cmd));
+                add(&format!("tall-file CSI {name} {pos}"), "textfile:ans", "", parts);
+            }
+        }
+        add("tall-file rect-fill", "textfile:ans", "", vec![lit(b"\x1b[65535;1Hx\x1b[65;1;1;"), Part::B, lit(b";"), Part::B, lit(b"$x")]);
+        add("tall-file rect-erase", "textfile:ans", "", vec![lit(b"\x1b[65535;1Hx\x1b[1;1;"), Part::B, lit(b";"), Part::B, lit(b"$z")]);
+        add("tall-file rect-copy", "textfile:ans", "", vec![lit(b"\x1b[65535;1Hx\x1b[1;1;"), Part::B, lit(b";"), Part::B, lit(b";1;2;2;1$v")]);
+        add("tall-file margins-then-scroll", "textfile:ans", "", vec![lit(b"\x1b[65535;1Hx\x1b[1;"), Part::B, lit(b"r\x1b[S\x1b[T\x1bD\x1bM")]);
         self.specials = v;
     }
 }
